@@ -8,25 +8,41 @@
 A module with helper functions for traversing AAS object structures.
 """
 
-from typing import Union, Iterator
+import itertools
+from typing import Union, Iterator, Iterable
 
 from .. import model
 
 
-def walk_submodel(collection: Union[model.Submodel, model.SubmodelElementCollection, model.SubmodelElementList]) \
+def walk_submodel(collection: Union[model.Submodel, model.SubmodelElementCollection, model.SubmodelElementList,
+                                    model.Entity, model.Operation, model.AnnotatedRelationshipElement]) \
         -> Iterator[model.SubmodelElement]:
     """
     Traverse the :class:`SubmodelElements <basyx.aas.model.submodel.SubmodelElement>` in a
     :class:`~basyx.aas.model.submodel.Submodel`, :class:`~basyx.aas.model.submodel.SubmodelElementCollection` or a
-    :class:`~basyx.aas.model.submodel.SubmodelElementList` recursively in post-order tree-traversal.
+    :class:`~basyx.aas.model.submodel.SubmodelElementList` recursively in post-order tree-traversal. The statements of
+    an :class:`~basyx.aas.model.submodel.Entity`, the variables of an :class:`~basyx.aas.model.submodel.Operation` and
+    the annotations of an :class:`~basyx.aas.model.submodel.AnnotatedRelationshipElement` are traversed as well.
 
     This is a generator function, yielding all the :class:`SubmodelElements <basyx.aas.model.submodel.SubmodelElement>`.
     No :class:`SubmodelElements <basyx.aas.model.submodel.SubmodelElement>` should be added, removed or
     moved while iterating, as this could result in undefined behaviour.
     """
-    elements = collection.submodel_element if isinstance(collection, model.Submodel) else collection.value
+    elements: Iterable[model.SubmodelElement]
+    if isinstance(collection, model.Submodel):
+        elements = collection.submodel_element
+    elif isinstance(collection, model.Entity):
+        elements = collection.statement
+    elif isinstance(collection, model.Operation):
+        elements = itertools.chain(collection.input_variable, collection.output_variable,
+                                   collection.in_output_variable)
+    elif isinstance(collection, model.AnnotatedRelationshipElement):
+        elements = collection.annotation
+    else:
+        elements = collection.value
     for element in elements:
-        if isinstance(element, (model.SubmodelElementCollection, model.SubmodelElementList)):
+        if isinstance(element, (model.SubmodelElementCollection, model.SubmodelElementList, model.Entity,
+                                model.Operation, model.AnnotatedRelationshipElement)):
             yield from walk_submodel(element)
         yield element
 
